@@ -1,8 +1,26 @@
-(* C13: load reproduces the source table faithfully (wrappers, headers, selection). *)
+(* C13: load reproduces the source table faithfully (file level, wrappers, headers, selection). *)
 From Coq Require Import List ZArith Bool.
-From DF Require Import Base.Str Base.ListX Base.Value Proc.RowOps Proc.Fields Proc.Load Proc.Load_proofs IO.Csv.
+From DF Require Import Base.Str Base.ListX Base.Value Proc.RowOps Proc.Fields Proc.Load Proc.Load_proofs IO.Csv IO.Csv_proofs IO.LoadCsv_proofs.
 Import ListNotations.
 Open Scope Z_scope.
+
+(* file level: the delimited text of a table (header record, one record per row, every record as wide as the header)
+   is read back as one row per data line, in file order, keyed by the header, every cell holding the written text --
+   for every table and every cell text (quotes, delimiters, line breaks inside cells) *)
+Theorem C13_file_rows_faithful : forall hdr recs rows,
+  (forall rc, In rc recs -> length rc = length hdr) ->
+  load_csv hdr (write_csv (hdr :: recs)) = Ok rows ->
+  length rows = length recs /\
+  (forall k rc, nth_error recs k = Some rc ->
+     exists r, nth_error rows k = Some r /\ map fst r = hdr /\
+       forall i h c, nth_error hdr i = Some h -> nth_error rc i = Some c -> nth_error r i = Some (h, VStr c)).
+Proof. exact load_csv_faithful. Qed.
+Print Assumptions C13_file_rows_faithful.
+
+Theorem C13_file_always_loads : forall hdr recs,
+  load_csv hdr (write_csv (hdr :: recs)) = Ok (map (fun rc => combine hdr (map VStr rc)) recs).
+Proof. exact load_csv_written. Qed.
+Print Assumptions C13_file_always_loads.
 
 (* limit_rows yields exactly the first n rows *)
 Theorem C13_limit_rows_firstn : forall rows n, 1 <= n -> limiter n 0 rows = firstn (Z.to_nat n) rows.
